@@ -68,7 +68,7 @@ def plumbing(ctx):
     if ok:
         a = calls[0]["args"]
         m = peel(psanorm.resolve(a[1]))
-        cache = field_path(a[2])
+        cache = field_path(psanorm.resolve(a[2]))       # `let cache = &mut self.cache;`
         roots = peel(psanorm.resolve(a[3]))
         tr = peel(psanorm.resolve(a[4]))
         root_locals = [x for x in walk(roots) if x.get("k") == "local"]
@@ -80,7 +80,7 @@ def plumbing(ctx):
     for i, r in enumerate(rets):
         b, ms = chain(r)
         b = peel(psanorm.resolve(b))       # `let simplified = get_fixed_point(..); simplified.unwrap()`
-        okr = b.get("k") == "call" and callee(b) == GET_FIXED_POINT and field_path(b["args"][0]) and field_path(b["args"][0])[2] == ["cache"] and is_local(b["args"][1], P.get("e")) \
+        okr = b.get("k") == "call" and callee(b) == GET_FIXED_POINT and field_path(psanorm.resolve(b["args"][0])) and field_path(psanorm.resolve(b["args"][0]))[2] == ["cache"] and is_local(b["args"][1], P.get("e")) \
             and [m[0] for m in ms] in (["unwrap"], ["expect"]) and (not calls or ix.precedes(calls[0], b))
         ctx.inst("R13.2", "Simplifier::simplify:result#%d" % (i + 1), okr, r.get("sp"),
                  "Simplifier::simplify returns `%s`: a result that is not read through get_fixed_point after the transformation can be an intermediate (not fully simplified) node, so the answer depends on what was simplified before" % show(r)[:160], sample=show(r)[:160])
@@ -213,7 +213,7 @@ def plumbing(ctx):
         okg = okg and (noop or endpoint)
     ctx.inst("R13.2", "get_fixed_point:compression-writes-end-point", okg, g["span"], "path compression may only store the end point of the chain (the value reached by the chase loop): %s" % [show(w) for w in ws], sample=[show(w) for w in ws])
     rets = [n["e"] for n in gix.nodes if n.get("k") == "return" and "e" in n] + [stmts_of(g["body"])[-1]]
-    ctx.inst("R13.2", "get_fixed_point:returns", all(peel(r).get("k") == "ctor" for r in rets), g["span"], "get_fixed_point must return Some(end point)", nontrivial=False)
+    ctx.inst("R13.2", "get_fixed_point:returns", all(peel(r).get("k") == "ctor" or (peel(r).get("k") == "def" and (peel(r).get("path") or "").endswith("Option::None")) for r in rets), g["span"], "get_fixed_point must return Some(end point)", nontrivial=False)
 
 
 def fixed_point_test(c, defs, new_id):
